@@ -110,6 +110,11 @@ namespace RecInt
         mpz_class m(b);
         mpz_to_ruint(*this, m);
     }
+    // the explicit specialisation ruint<__RECINT_LIMB_SIZE> declares this constructor too
+    inline ruint<__RECINT_LIMB_SIZE>::ruint(const char* b) {
+        mpz_class m(b);
+        mpz_to_ruint(*this, m);
+    }
 
 }
 
